@@ -26,21 +26,21 @@ def cpseq(strings):
 _case_re = re.compile(r'^<<"CASE", <<([0-9, ]*)>>>>$')
 
 
-def gen_cases(tag, mode, lits=(), binops=(), unops=(), funcs=(), maxbin=2, maxun=0, chain=("1",), signs=("",),
+def gen_cases(tag, mode, lits=(), binops=(), unops=(), funcs=(), funcs2=(), maxbin=2, maxun=0, chain=("1",), signs=("",),
               workers=1, timeout=1200):
     """Run MC_ExprGen with the given constants; returns (texts, TlcResult)."""
     # TLC's cfg syntax has no tuples inside sets: the constants go into a generated module
     mod = "Gen_%s" % tag
     with open(os.path.join(vlib.SPEC, mod + ".tla"), "w") as f:
         f.write("---- MODULE %s ----\nEXTENDS MC_ExprGen\n" % mod)
-        f.write("G_Lits == %s\nG_BinOps == %s\nG_UnOps == %s\nG_Funcs == %s\nG_Chain == %s\nG_Signs == %s\n" % (
-            cpset(lits), cpset(binops), cpset(unops), cpset(funcs), cpseq(chain), cpset(signs)))
+        f.write("G_Lits == %s\nG_BinOps == %s\nG_UnOps == %s\nG_Funcs == %s\nG_Funcs2 == %s\nG_Chain == %s\nG_Signs == %s\n" % (
+            cpset(lits), cpset(binops), cpset(unops), cpset(funcs), cpset(funcs2), cpseq(chain), cpset(signs)))
         f.write("====\n")
     cfg = os.path.join(vlib.SPEC, mod + ".cfg")
     with open(cfg, "w") as f:
         f.write("SPECIFICATION Spec\nINVARIANT Emit\nCHECK_DEADLOCK FALSE\nCONSTANTS\n")
         f.write('  Mode = "%s"\n  MaxBin = %d\n  MaxUn = %d\n' % (mode, maxbin, maxun))
-        f.write("  Lits <- G_Lits\n  BinOps <- G_BinOps\n  UnOps <- G_UnOps\n  Funcs <- G_Funcs\n  Chain <- G_Chain\n  Signs <- G_Signs\n")
+        f.write("  Lits <- G_Lits\n  BinOps <- G_BinOps\n  UnOps <- G_UnOps\n  Funcs <- G_Funcs\n  Funcs2 <- G_Funcs2\n  Chain <- G_Chain\n  Signs <- G_Signs\n")
     try:
         r = vlib.tlc(mod, cfg, workers=workers, timeout=timeout, tag="gen" + tag, xmx="8g")
     finally:
@@ -157,3 +157,98 @@ def judge(events, module="Trace_Eval", cfg=None, shards=8, tag="jd", timeout=360
 
 def qtext(ev):
     return "".join(chr(c) for c in ev["q"])
+
+
+# ----------------------------------------------------------------------------
+# database-level helpers (C02, C03, C09, C10, ...)
+
+_dump_cache = {}
+
+
+def registry_dump(ctx="bundled"):
+    """rv-eval dump of a context, as python dict (cached per process)."""
+    if ctx not in _dump_cache:
+        path = vlib.workfile("dump-%s.json" % ctx.replace(":", "_").replace("/", "_"))
+        vlib.run_tool([vlib.rv("rv-eval"), "dump", ctx, path], timeout=300)
+        _dump_cache[ctx] = json.load(open(path))
+    return _dump_cache[ctx]
+
+
+def env_file(dump, tag="env"):
+    """the environment the judge specs read (Query.tla EnvFromJson)"""
+    env = {"base": dump["base"],
+           "units": [{"name": u["name"], "val": u["val"]} for u in dump["units"]],
+           "prefixes": [{"name": p["name"], "v": p["v"]} for p in dump["prefixes"]],
+           "substnames": [s["name"] for s in dump["substances"]] + [s["sym"] for s in dump["symbols"]]}
+    path = vlib.workfile("%s.json" % tag)
+    with open(path, "w") as f:
+        json.dump(env, f)
+    return path
+
+
+def s_of(cp):
+    return "".join(chr(c) for c in cp)
+
+
+def decide(run, texts, leg, ctx="bundled", module="Trace_Query", env=None, shards=8, timeout_ms=5000,
+           min_per_shard=300, engine="query", crash_is_violation=True, nontrivial=None, case_extra=None):
+    """run texts through the code, judge them, record violations. Returns (results, events, verdicts)."""
+    import time
+    t0 = time.time()
+    res = run_eval([{"qs": t} for t in texts], ctx=ctx, timeout_ms=timeout_ms, shards=shards, tag=run.prop.lower() + leg)
+    t1 = time.time()
+    events = [slim_event(r, keep_parts=True) for r in res]
+    verdicts, st = judge(events, module, shards=shards, tag=run.prop.lower() + "j" + leg, env=env, min_per_shard=min_per_shard)
+    run.cov["states"] += st["distinct"]
+    run.cov["transitions"] += st["generated"]
+    run.traces(len(events))
+    nsilent = nast = nrej = 0
+    for i, ev in enumerate(events):
+        run.count()
+        v = verdicts.get(i, set())
+        q = texts[i]
+        if "SILENT" in v or "UNSUPPORTED" in v:
+            nsilent += 1
+            continue
+        if nontrivial is None or nontrivial(q):
+            run.nontrivial(q)
+        if "ASTDIFF" in v:
+            nast += 1
+            if nast <= 3:
+                run.drift_note("Grammar", "the code's AST differs from the specification's parse of %r" % q)
+        if "NOTE" in v:
+            run.drift_note("Query", "note on %r" % q)
+        if "REJECT" in v or ("CRASH" in v and crash_is_violation):
+            nrej += 1
+            obs = ev["obs"]
+            case = {"engine": engine, "leg": leg, "q": q, "obs_kind": obs.get("t"),
+                    "crash": obs.get("c") if obs.get("t") == "crash" else None}
+            if case_extra:
+                case.update(case_extra(q))
+            run.violation(case, "the reply the specification determines for this query (value, dimensionality, error class)",
+                          strip_nulls(res[i].get("obs", {k: res[i].get(k) for k in ("crash", "msg", "signal")})), engine)
+    log("[%s] leg %s: %d texts, %d silent, %d astdiff, %d rejected, eval %.1fs judge %.1fs" % (
+        run.prop, leg, len(texts), nsilent, nast, nrej, t1 - t0, time.time() - t1))
+    return res, events, verdicts
+
+
+def replay_query(prop, path, ctx="bundled", module="Trace_Query", env=None):
+    body = json.load(open(path))
+    q = body["case"]["q"]
+    vlib.build_harness()
+    res = run_eval([{"qs": q}], ctx=ctx, tag=prop.lower() + "r")
+    ev = slim_event(res[0], keep_parts=True)
+    verdicts, _ = judge([ev], module, shards=1, tag=prop.lower() + "rj", env=env)
+    log("query: %r\nobserved: %s\nverdict: %s" % (q, json.dumps(res[0].get("obs", res[0]))[:600], verdicts.get(0, {"ACCEPT"})))
+    return 1 if verdicts.get(0, set()) & {"REJECT", "CRASH"} else 0
+
+
+def selfcheck_corrupt(run, q, mutate, ctx="bundled", module="Trace_Query", env=None):
+    """a corrupted observation of query q must be rejected by the judge"""
+    res = run_eval([{"qs": q}], ctx=ctx, tag=run.prop.lower() + "self")
+    ev = slim_event(res[0], keep_parts=True)
+    mutate(ev)
+    verdicts, _ = judge([ev], module, shards=1, tag=run.prop.lower() + "selfj", env=env)
+    if "REJECT" not in verdicts.get(0, set()):
+        raise vlib.ToolError("self-check: corrupted observation of %r was not rejected by %s" % (q, module))
+    run.note("selfcheck_corrupted_observation_rejected", True)
